@@ -109,8 +109,29 @@ func ExponentialBackoff(backoff time.Duration, factor, jitter float64) Backoff {
 
 		// do exponential backoff with jitter
 		temp := float64(backoff) * math.Pow(factor, float64(attempt))
-		return time.Duration(temp*(1-jitter)) + time.Duration(rand.Int64N(int64(2*jitter*temp)))
+		interval := saturateDuration(temp * (1 - jitter))
+		if spread := saturateDuration(2 * jitter * temp); spread > 0 {
+			// rand.Int64N panics on a non-positive argument
+			if random := time.Duration(rand.Int64N(int64(spread))); interval > math.MaxInt64-random {
+				interval = math.MaxInt64
+			} else {
+				interval += random
+			}
+		}
+		return interval
 	}
+}
+
+// saturateDuration converts f to a duration, saturating at the bounds of
+// non-negative durations.
+func saturateDuration(f float64) time.Duration {
+	switch {
+	case math.IsNaN(f) || f <= 0:
+		return 0
+	case f >= math.MaxInt64:
+		return math.MaxInt64
+	}
+	return time.Duration(f)
 }
 
 // GenericPolicy is a generic retry policy.
